@@ -4,6 +4,7 @@ import Mathlib.Tactic.Ring
 import Mathlib.Tactic.Linarith
 import Mathlib.Tactic.FieldSimp
 import Mathlib.Tactic.Positivity
+import Mathlib.Order.Interval.Finset.Nat
 
 /-!
 # The window strategies of `rfa.py`: window validity, border values, one lemma per branch
@@ -570,7 +571,151 @@ theorem expOut_right_mem (hp : PowLike pw) (hX : StrictIncr ((m + 1) * n) X) (hk
     exact Set.uIcc_subset_uIcc hz Set.right_mem_uIcc
       (linFit_grid_mem hX _ _ (by omega) (by omega) (by omega) (by omega))
 
+/-- along the left transition the values move monotonically from `z_0` to the average, **provided**
+`s ^ α ≤ s` on `[0, 1]` (exponent at least one) -/
+theorem expOut_left_toward (hp : PowLike pw) (hsub : ∀ t, 0 ≤ t → t ≤ 1 → pw t ≤ t)
+    (hX : StrictIncr ((m + 1) * n) X) (hk : 1 ≤ k) (hkm : k ≤ m - 1) (ho : WinOk w n k) {i' : ℕ}
+    (hii : i ≤ i') (hi' : i' ≤ w.aL k) (hin : i' < n) :
+    Toward (z0 X Y n w ad k) (Y k) (expOut pw X Y m n w ad ((k - 1) * n + i))
+      (expOut pw X Y m n w ad ((k - 1) * n + i')) := by
+  have hN := idx_bound n (show k ≤ m by omega)
+  have hoL := ho.bL
+  have hoS := ho.sum
+  rcases Nat.lt_or_ge i (w.aL k) with hia | hia
+  swap
+  · have : i = i' := by omega
+    subst this; exact Toward.rfl' _ _ _
+  have hz : z0lb X Y n w ad k ∈ Set.uIcc (z0 X Y n w ad k) (Y k) :=
+    z0lb_mem_uIcc hX (by omega) hoL (by omega) (by omega)
+  rcases Nat.lt_or_ge i' (w.aL k) with h | h
+  · rcases Nat.lt_or_ge i' (w.bL k) with h1 | h1
+    · rw [expOut_linL_eq hk hkm (by omega) (by omega), expOut_linL_eq hk hkm h1 hin]
+      exact (linFit_grid_toward hX _ _ (by omega) (by omega) (by omega) (by omega)).of_left hz
+    · rcases Nat.lt_or_ge i (w.bL k) with h2 | h2
+      · rw [expOut_linL_eq hk hkm h2 (by omega), expOut_blendL_eq hk hkm h1 h hin]
+        exact toward_of_mem hz
+          (linFit_grid_mem hX _ _ (by omega) (by omega) (by omega) (by omega))
+          (linExpXYFit_grid_mem hX hp _ _ (by omega) (by omega) (by omega) (by omega))
+      · rw [expOut_blendL_eq hk hkm h2 (by omega) (by omega), expOut_blendL_eq hk hkm h1 h hin]
+        exact (linExpXYFit_grid_toward hX hp hsub _ _ (by omega) (by omega) (by omega) (by omega)
+          (by omega)).of_right hz
+  · rw [expOut_plateau hp.zero hX hk hkm ho h (by omega) hin]
+    exact toward_of_mem Set.right_mem_uIcc (expOut_left_mem hp hX hk hkm ho hia) Set.left_mem_uIcc
+
+/-- along the right transition the values move monotonically from the average to `z_0` of the next
+interval, **provided** `s ^ α ≤ s` on `[0, 1]` -/
+theorem expOut_right_toward (hp : PowLike pw) (hsub : ∀ t, 0 ≤ t → t ≤ 1 → pw t ≤ t)
+    (hX : StrictIncr ((m + 1) * n) X) (hk : 1 ≤ k) (hkm : k ≤ m - 1) (ho : WinOk w n k) {i' : ℕ}
+    (hi : n - w.aR k ≤ i) (hii : i ≤ i') (hin : i' < n) :
+    Toward (Y k) (z0 X Y n w ad (k + 1)) (expOut pw X Y m n w ad ((k - 1) * n + i))
+      (expOut pw X Y m n w ad ((k - 1) * n + i')) := by
+  have hN := idx_bound n (show k ≤ m by omega)
+  have hoL := ho.bL
+  have hoR := ho.bR
+  have hoS := ho.sum
+  have hR1 : 1 ≤ w.aR k := by omega
+  have hz : z0rb X Y n w ad k ∈ Set.uIcc (Y k) (z0 X Y n w ad (k + 1)) :=
+    z0rb_mem_uIcc hX (by omega) hoR hR1 (by omega)
+  rcases Nat.lt_or_ge i' (n - w.bR k) with h1 | h1
+  · rw [expOut_blendR_eq hk hkm hoL (by omega) hi (by omega),
+      expOut_blendR_eq hk hkm hoL (by omega) (by omega) h1]
+    exact (expLinFit_grid_toward hX hp hsub _ _ (by omega) (by omega) (by omega) (by omega)
+      (by omega)).of_left hz
+  · rcases Nat.lt_or_ge i (n - w.bR k) with h2 | h2
+    · rw [expOut_blendR_eq hk hkm hoL (by omega) hi h2,
+        expOut_linR_eq hk hkm hoL (by omega) h1 hin]
+      exact toward_of_mem hz
+        (expLinFit_grid_mem hX hp _ _ (by omega) (by omega) (by omega) (by omega))
+        (linFit_grid_mem hX _ _ (by omega) (by omega) (by omega) (by omega))
+    · rw [expOut_linR_eq hk hkm hoL (by omega) h2 (by omega),
+        expOut_linR_eq hk hkm hoL (by omega) h1 hin]
+      exact (linFit_grid_toward hX _ _ (by omega) (by omega) (by omega) (by omega)).of_right hz
+
 end exp
+
+/-! ### from "between border value and average" to "between the two averages" -/
+
+section between
+variable {X Y : ℕ → K} {m n : ℕ} {w : Windows} {ad : Bool} {k : ℕ}
+
+theorem uIcc_z0_left_subset (hX : StrictIncr ((m + 1) * n) X) (hk1 : 1 ≤ k) (hkm : k ≤ m)
+    (hL : w.aL k ≤ n) (hRp : w.aR (k - 1) ≤ n) (hL1 : 1 ≤ w.aL k) :
+    Set.uIcc (z0 X Y n w ad k) (Y k) ⊆ Set.uIcc (Y (k - 1)) (Y k) :=
+  Set.uIcc_subset_uIcc (z0_mem_uIcc hX hk1 hkm hL hRp (fun _ => by omega)) Set.right_mem_uIcc
+
+theorem uIcc_z0_right_subset (hX : StrictIncr ((m + 1) * n) X) (hkm : k + 1 ≤ m)
+    (hR : w.aR k ≤ n) (hLn : w.aL (k + 1) ≤ n) (hR1 : 1 ≤ w.aR k) :
+    Set.uIcc (Y k) (z0 X Y n w ad (k + 1)) ⊆ Set.uIcc (Y k) (Y (k + 1)) := by
+  have h := z0_mem_uIcc (Y := Y) (ad := ad) (k := k + 1) hX (by omega) hkm hLn
+    (by rw [Nat.add_sub_cancel]; exact hR) (fun _ => by rw [Nat.add_sub_cancel]; omega)
+  rw [Nat.add_sub_cancel] at h
+  exact Set.uIcc_subset_uIcc Set.left_mem_uIcc h
+
+/-- the last sample of the linear strategies -/
+theorem linOut_last (X Y : ℕ → K) (w : Windows) (ad : Bool) (hn : 0 < n) (hm : 1 ≤ m) :
+    linOut X Y m n w ad ((m - 1) * n) =
+      if 2 ≤ m ∧ 1 ≤ w.aR (m - 1) then linRight X Y n w ad (m - 1) n else Y m := by
+  have := linOut_idx X Y m w ad hm hn
+  rw [Nat.add_zero] at this
+  rw [this, if_neg (by omega), if_neg (by omega)]
+  by_cases h : 2 ≤ m ∧ 1 ≤ w.aR (m - 1)
+  · rw [if_pos ⟨rfl, h⟩, if_pos h]
+  · rw [if_neg (fun h' => h h'.2), if_neg h]
+
+theorem linOut_last_mem (hX : StrictIncr ((m + 1) * n) X) (hn : 0 < n) (hm : 1 ≤ m)
+    (hL : w.aL m ≤ n) (hR : w.aR (m - 1) ≤ n) :
+    linOut X Y m n w ad ((m - 1) * n) ∈ Set.uIcc (Y (m - 1)) (Y m) := by
+  rw [linOut_last X Y w ad hn hm]
+  split_ifs with h
+  · rw [linRight_end hX (by omega) h.2 hR, Nat.sub_add_cancel hm]
+    exact z0_mem_uIcc hX hm le_rfl hL hR (fun _ => by omega)
+  · exact Set.right_mem_uIcc
+
+end between
+
+/-! ### counting the samples off the plateau -/
+
+theorem card_off_le {f : ℕ → K} {c : K} {n aL aR : ℕ}
+    (h : ∀ i, i < n → aL ≤ i → i ≤ n - aR → f i = c) :
+    ((Finset.range n).filter (fun i => f i ≠ c)).card ≤ aL + (aR - 1) := by
+  have hsub : (Finset.range n).filter (fun i => f i ≠ c) ⊆
+      Finset.range aL ∪ Finset.Ico (n - aR + 1) n := by
+    intro i hi
+    rw [Finset.mem_filter, Finset.mem_range] at hi
+    rw [Finset.mem_union, Finset.mem_range, Finset.mem_Ico]
+    by_contra hc
+    exact hi.2 (h i hi.1 (by omega) (by omega))
+  calc _ ≤ (Finset.range aL ∪ Finset.Ico (n - aR + 1) n).card := Finset.card_le_card hsub
+    _ ≤ (Finset.range aL).card + (Finset.Ico (n - aR + 1) n).card := Finset.card_union_le _ _
+    _ ≤ aL + (aR - 1) := by rw [Finset.card_range, Nat.card_Ico]; omega
+
+/-! ### the adaptive split with `adaptive_smooth = 1` -/
+
+/-- with `γ = nom / denom` the un-floored shares are `a·nom/(nom+denom)` and `a·denom/(nom+denom)` -/
+theorem shares_id {nom denom : K} (hn : 0 < nom) (hd : 0 < denom) (a : K) :
+    id (nom / denom) * a / (1 + id (nom / denom)) = a * nom / (nom + denom) ∧
+      a / (1 + id (nom / denom)) = a * denom / (nom + denom) := by
+  have h1 : nom + denom ≠ 0 := by positivity
+  have h2 : 1 + nom / denom ≠ 0 := by positivity
+  have h3 : denom ≠ 0 := hd.ne'
+  simp only [id]
+  constructor <;> (field_simp; ring)
+
+theorem adaptiveAt_id (a : ℕ) (Y : ℕ → K) (k : ℕ) (h1 : |Y (k + 1) - Y k| ≠ 0)
+    (h2 : |Y k - Y (k - 1)| ≠ 0) :
+    adaptiveAt id a Y k =
+      (natFloorUpTo a (min (max ((a : K) * |Y (k + 1) - Y k| /
+          (|Y (k + 1) - Y k| + |Y k - Y (k - 1)|)) 1) (a : K)),
+       natFloorUpTo a (min (max ((a : K) * |Y k - Y (k - 1)| /
+          (|Y (k + 1) - Y k| + |Y k - Y (k - 1)|)) 1) (a : K))) := by
+  have hn : 0 < |Y (k + 1) - Y k| := abs_pos.mpr (abs_ne_zero.mp h1)
+  have hd : 0 < |Y k - Y (k - 1)| := abs_pos.mpr (abs_ne_zero.mp h2)
+  rw [adaptiveAt_general id a Y k h1 h2, (shares_id hn hd (a : K)).1, (shares_id hn hd (a : K)).2]
+
+/-- floor after clamp is monotone -/
+theorem floor_clamp_mono (a : ℕ) {x y : K} (h : x ≤ y) :
+    natFloorUpTo a (min (max x 1) (a : K)) ≤ natFloorUpTo a (min (max y 1) (a : K)) :=
+  natFloorUpTo_mono a (min_le_min_right _ (max_le_max_right _ h))
 
 end Rfa
 end TWV
